@@ -199,8 +199,9 @@ def cases(draw, tier="quick", force_sel=None):
                     pat += c
                     i += 1
                 elif r == 1:
-                    pat += b"*"
-                    i += draw(st.integers(0, 3))    # (in -path patterns a star that swallowed a slash simply matches nothing)
+                    if not pat.endswith(b"*"):
+                        pat += b"*"
+                    i += draw(st.integers(1, 3))    # (in -path patterns a star that swallowed a slash simply matches nothing)
                 elif r == 2 or c in b"\\[]*?" or c[0] < 0x20 or c[0] >= 0x7f:
                     pat += b"?"
                     i += 1
